@@ -140,5 +140,10 @@ def miri_prebuild(binname):
 
 def clean_scratch():
     if REPO != "/repo":
-        for fl in ("native", "release", "asan", "tsan", "miri", "harness"):
+        for fl in ("native", "release", "asan", "tsan", "miri", "harness", "gen-target", "gen-target-cgu1-O3", "gen-target-cgu16-O0"):
             shutil.rmtree(os.path.join(BUILD, fl + _suffix()), ignore_errors=True)
+        gen = os.path.join(BUILD, "gen")
+        if os.path.isdir(gen):
+            for d in os.listdir(gen):
+                if d.endswith(_suffix()):
+                    shutil.rmtree(os.path.join(gen, d), ignore_errors=True)
